@@ -156,6 +156,7 @@ func init() {
 		// exercised through a real connection in the protocol part of C09)
 		auth := in["auth"]
 		m := c.L.Call("chunks", hx(auth))
+		c.genCheck("chunks", hexIn(in), m, hx(auth)) // (the regenerated chunk loop of handleSASL against the model's chunking)
 		var parts []string
 		for _, h := range strings.Split(strings.Trim(m, "[]"), ",") {
 			parts = append(parts, unhx(h))
@@ -181,6 +182,7 @@ func init() {
 		if m := c.L.Call("plain", hx(u), hx(p), hxList(ps)); m != hx(impl) {
 			c.R.Mismatch("plain", hexIn(in), hx(impl), m)
 		}
+		c.genCheck("plain", hexIn(in), hx(impl), hx(u), hx(p), hxList(ps))
 		if len(ps) == 1 && ps[0] == "+" {
 			want := base64.StdEncoding.EncodeToString([]byte(u + "\x00" + u + "\x00" + p))
 			if impl != want {
@@ -193,6 +195,7 @@ func init() {
 		if m := c.L.Call("external", hx(u), hxList(ps)); m != hx(ext) {
 			c.R.Mismatch("external", hexIn(in), hx(ext), m)
 		}
+		c.genCheck("external", hexIn(in), hx(ext), hx(u), hxList(ps))
 	}
 	runners["b64"] = func(c *Ctx, in map[string]string) {
 		s := in["s"]
@@ -270,6 +273,11 @@ func init() {
 		chars, _ := strconv.Atoi(in["chars"])
 		d, nwd := girc.VerifRate(time.Duration(wd), time.Duration(since), chars)
 		m := strings.Split(c.L.Call("rate", in["wd"], in["since"], in["chars"]), " ")
+		// the regenerated body of ircConn.rate on the same call (now = since, last write at 0, nothing due)
+		if g := strings.Fields(c.L.Call("gen.ircConn.rate", in["since"], "0", "0", in["wd"], in["chars"])); len(g) != 3 || g[0] != m[0] || g[1] != m[1] {
+			c.R.Mismatch("translated.ircConn.rate", hexIn(in), strings.Join(m, " "), strings.Join(g, " "))
+		}
+		c.R.Dist["translated.ircConn.rate"]++
 		mwd, _ := strconv.ParseInt(m[0], 10, 64)
 		md, _ := strconv.ParseInt(m[1], 10, 64)
 		// the real function reads the clock: `since` is observed with a jitter of a few microseconds
@@ -374,6 +382,7 @@ func runC14(c *Ctx) {
 }
 
 func runC20(c *Ctx) {
+	runC20Global(c)
 	r := c.R
 	r.Rule = "random item lists over EVERY colour and code name in random letter case, fg/bg pairs, literals with digits, commas, control bytes, " +
 		"unknown {tokens} and unmatched braces (Fmt on arbitrary text must agree byte for byte with the model); arbitrary strings for the StripRaw laws " +
@@ -726,11 +735,11 @@ func cmdExecRunner(c *Ctx, in map[string]string) {
 		validName := len(name) >= 1 && len(name) <= 20 && strings.Trim(name, "abcdefghijklmnopqrstuvwxyz0123456789-_") == ""
 		if validName && name != "help" && !strings.Contains(raw, "\n") {
 			// which registered command (by the Add results) owns this name?
+			// the owner of a name is the FIRST command that listed it; when that registration succeeded, no later (accepted or
+			// rejected) registration may take the name away from it
 			owner, minArgs := -1, 0
+			firstLister := -1
 			for i := 0; i < n; i++ {
-				if addRes[i] != "ok" {
-					continue
-				}
 				nm := strings.ToLower(in[fmt.Sprintf("c%d.name", i)])
 				names := []string{nm}
 				if a := in[fmt.Sprintf("c%d.aliases", i)]; a != "" {
@@ -739,19 +748,16 @@ func cmdExecRunner(c *Ctx, in map[string]string) {
 					}
 				}
 				for _, x := range names {
-					if x == name && owner < 0 {
-						owner = i
-						minArgs, _ = strconv.Atoi(in[fmt.Sprintf("c%d.min", i)])
+					if x == name && firstLister < 0 {
+						firstLister = i
+						if addRes[i] == "ok" {
+							owner = i
+							minArgs, _ = strconv.Atoi(in[fmt.Sprintf("c%d.min", i)])
+						}
 					}
 				}
 			}
-			allOK := true
-			for _, r := range addRes {
-				if r != "ok" {
-					allOK = false // partially registered tables are compared with the model only
-				}
-			}
-			if owner >= 0 && allOK {
+			if owner >= 0 {
 				want := []string{}
 				if raw != "" {
 					want = strings.Split(raw, " ")
